@@ -66,7 +66,9 @@ pub fn kruger(xs: &[f64], ys: &[f64]) -> Reference {
             m_sh[i] = Bf::zero();
         } else {
             let prod = s[i - 1].mul(&s[i]);
-            dom &= ok(&prod) && ok(&s[i - 1].recip()) && ok(&s[i].recip());
+            // only the SIGN of slope01*slope12 is used by the construction: it may overflow (to +inf), but it must
+            // not underflow to zero, and the reciprocals / the mean must stay in range
+            dom &= (prod.is_zero() || prod.0.top() >= -900) && ok(&s[i - 1].recip()) && ok(&s[i].recip());
             m[i] = Bf::from_i64(2).div(&s[i - 1].recip().add(&s[i].recip()));
             m_sh[i] = m[i].abs();
         }
@@ -133,8 +135,8 @@ pub fn knots_strategy(tier: Tier) -> BoxedStrategy<Case> {
         // integers
         2 => vec((1i32..=5).prop_map(|i| i as f64), 2..48),
     ];
-    let pattern = 0u8..10;
-    (prop_oneof![9 => 3usize..=nmax, 1 => (nmax + 1)..=nlong], offsets, steps, pattern, vec(gen::moderate(12), 48), (prop_oneof![4 => -20i32..=20, 1 => -250i32..=250], gen::scaled(-6, 6), gen::moderate(8)), gen::common_scale(100))
+    let pattern = 0u8..12;
+    (prop_oneof![9 => 3usize..=nmax, 1 => (nmax + 1)..=nlong], offsets, steps, pattern, vec(gen::moderate(12), 48), (prop_oneof![8 => -20i32..=20, 2 => -250i32..=250, 1 => -520i32..=520], gen::scaled(-6, 6), gen::moderate(8)), gen::common_scale(100))
         .prop_map(|(n, x0, steps, pat, rnd, (scale_e, slope, icpt), xscale)| {
             let mut xs = Vec::with_capacity(n);
             let mut x = x0;
@@ -171,6 +173,23 @@ pub fn knots_strategy(tier: Tier) -> BoxedStrategy<Case> {
                             let mid = n / 2;
                             let dd = (i as i64 - mid as i64).abs() as f64;
                             (10.0 - dd * (1.0 + r.abs() * 0.1)) * sc
+                        }
+                        10 | 11 => {
+                            // polyline: exactly collinear runs that start at interior kinks (what re-sampling the
+                            // output of linear() on a finer grid gives); exact when the abscissae are small integers
+                            let kink1 = n / 3;
+                            let kink2 = if pat == 10 { n } else { 2 * n / 3 };
+                            let s1 = (slope * 8.0).round() / 8.0;
+                            let s2 = -((icpt * 4.0).round() / 4.0) - 0.5;
+                            let seg = |from: usize, to: usize, sl: f64| sl * (xs[to] - xs[from]);
+                            let y = if i <= kink1 {
+                                seg(0, i, s1)
+                            } else if i <= kink2 {
+                                seg(0, kink1, s1) + seg(kink1, i, s2)
+                            } else {
+                                seg(0, kink1, s1) + seg(kink1, kink2.min(n - 1), s2) + seg(kink2.min(n - 1), i, s1 * 0.5 + 1.0)
+                            };
+                            y * sc
                         }
                         8 | 9 => {
                             // few distinct ordinates incl. signed zeros: plateaus of three and more equal values,
@@ -274,7 +293,7 @@ impl Prop for C04 {
         "C04"
     }
     fn rule(&self) -> String {
-        "case = knot sequence of 3..=10 (thorough 48) knots; abscissae strictly increasing by construction (x_(i+1) = max(x_i+step, next_up(x_i))): offsets {0, ±1e3, ±1e6, ±1e9, random}, steps uniform / wild 2^±10 / one-ulp / integer; ordinates monotone, oscillating, plateaued, nearly collinear (line + few-ulp noise), exactly collinear, non-increasing with flats, single peak, few distinct ordinates (plateaus of >=3 equal values, runs of +0.0/-0.0), random; abscissae additionally times a common power of two 2^k (k in ±100, 30% of cases); 1 case in 10 has 11..70 (thorough ..130) knots; scales 2^±20 (4/5) or 2^±250 (1/5). Oracle: the exact Kruger construction in 384-bit arithmetic with exact sign decisions, and its magnitude shadows (every subtraction replaced by an addition of magnitudes). Checked: (1) n-1 pieces, end_i bit-identical to x_(i+1); (2) every returned cubic, evaluated EXACTLY at both of its knots, is within 64u·(Ā+B̄|x|+C̄x²+D̄|x|³) of the ordinate, and through Evaluate::evaluate with the C01 bound added; (3) at every interior knot the exact derivatives of the two adjacent returned cubics agree with each other and with the exact knot slope (harmonic mean or 0), at the end knots with 3/2·Δ - 1/2·m, within 64u·(B̄+2C̄|x|+3D̄x²); the same through derivative().evaluate(). Domain: every intermediate of the construction within 2^±900 (else counted as excluded). Non-trivial: not exactly collinear and >= 4 knots.".into()
+        "case = knot sequence of 3..=10 (thorough 48) knots; abscissae strictly increasing by construction (x_(i+1) = max(x_i+step, next_up(x_i))): offsets {0, ±1e3, ±1e6, ±1e9, random}, steps uniform / wild 2^±10 / one-ulp / integer; ordinates monotone, oscillating, plateaued, nearly collinear (line + few-ulp noise), exactly collinear, non-increasing with flats, single peak, few distinct ordinates (plateaus of >=3 equal values, runs of +0.0/-0.0), polylines (exactly collinear runs starting at interior kinks), random; abscissae additionally times a common power of two 2^k (k in ±100, 30% of cases); 1 case in 10 has 11..70 (thorough ..130) knots; scales 2^±20, 2^±250 (2/11) or 2^±520 (1/11). Oracle: the exact Kruger construction in 384-bit arithmetic with exact sign decisions, and its magnitude shadows (every subtraction replaced by an addition of magnitudes). Checked: (1) n-1 pieces, end_i bit-identical to x_(i+1); (2) every returned cubic, evaluated EXACTLY at both of its knots, is within 64u·(Ā+B̄|x|+C̄x²+D̄|x|³) of the ordinate, and through Evaluate::evaluate with the C01 bound added; (3) at every interior knot the exact derivatives of the two adjacent returned cubics agree with each other and with the exact knot slope (harmonic mean or 0), at the end knots with 3/2·Δ - 1/2·m, within 64u·(B̄+2C̄|x|+3D̄x²); the same through derivative().evaluate(). Domain: every intermediate of the construction within 2^±900 (else counted as excluded). Non-trivial: not exactly collinear and >= 4 knots.".into()
     }
     fn assumptions(&self) -> Vec<String> {
         vec!["K = 64 (DESIGN.md §3.3) is the harness's reading of 'a small multiple of 2^-53 times the magnitudes of the intermediate terms'".into()]
